@@ -455,6 +455,14 @@ class AbsDeque(AbstractSeq):
     def append(self, x):
         self.n = self.n + 1
 
+    def __getitem__(self, k):
+        if isinstance(k, int) and k == 0:
+            return AbsItem(self.head)            # peek at the head
+        if isinstance(k, int) and k == -1:
+            return AbsItem(self.head + self.n - 1)
+        from pyvc.values import Unsupported
+        raise Unsupported('indexing AbsDeque at %r outside a loop contract' % (k,))
+
     def appendleft(self, x):
         # (ghost indices go down: the element put back in front is the one last taken from the head)
         self.head = self.head - 1
@@ -481,8 +489,17 @@ class PopPacket(Unit):
         fails = bool(E.fork(2, 'write-fails'))
         boom = OSError(113, 'No route to host')
 
+        # re-entrancy: an outgoing listener of the packet being written may call disconnect(), whose flush calls _pop_packet
+        # again (same thread, re-entrant lock) - the nested call must get the NEXT packet, never the one being written
+        # (seeded change C12-r12: peek, write, then popleft)
+        reenters = bool(E.fork(2, 'listener-reenters-flush')) and not fails
+        depth = []
+
         def wp(I_, c, p):
             written.append(p)
+            if reenters and not depth:
+                depth.append(1)
+                I_.call(raw(Connection, '_pop_packet'), c)
             if fails:
                 raise PyRaise(boom)
         I.override(raw(Connection, '_write_packet'), wp, kind='contract')
@@ -497,6 +514,12 @@ class PopPacket(Unit):
             return None
         if fails and not I.truth(n == 0):
             E.check('pop.write-error-propagates', False, note='_write_packet raised OSError but _pop_packet returned %r' % (r,))
+            return None
+        if reenters:
+            if len(written) >= 2:
+                E.check('pop.reentrant-no-duplicate', Not(written[0].idx == written[1].idx) if not isinstance(written[0].idx == written[1].idx, bool)
+                        else written[0].idx != written[1].idx,
+                        note='a flush started by an outgoing listener of packet k was handed packet k again: it goes to the wire twice')
             return None
         if I.truth(n == 0):
             E.check('pop.empty', r is False and written == [] and q.head == 0)
@@ -530,6 +553,23 @@ class PopPacket(Unit):
                 return dict(confirmed=True, call='_pop_packet twice on queue [a, b]; the first write raises EPIPE',
                             observed='first call: %s %r; packets offered to _write_packet: %r (each packet must be offered once)'
                                      % (k1, v1, offered))
+        if not bad:
+            # an outgoing listener of 'a' calls disconnect(): the nested flush writes b and c, never 'a' again
+            conn = native_connection()
+            conn._outgoing_packet_queue = deque(['a', 'b', 'c'])
+            offered = []
+
+            def reentrant(p):
+                offered.append(p)
+                if p == 'a':
+                    while conn._pop_packet():
+                        pass
+            conn._write_packet = reentrant
+            from pyvc.harness import native_call
+            k1, v1 = native_call(conn._pop_packet)
+            if offered != ['a', 'b', 'c'] or k1 != 'ok':
+                return dict(confirmed=True, call='_pop_packet on queue [a, b, c] where writing a re-enters the flush (an outgoing listener calls disconnect())',
+                            observed='%s %r; packets offered to _write_packet: %r (each exactly once, in order)' % (k1, v1, offered))
         return dict(confirmed=bad, call='_pop_packet x4 on queue [a, b, c]', observed='wrote %r, returned %r' % (w, r))
 
 
